@@ -241,7 +241,7 @@ def write_evidence(ctx, prop, level, rule, assumptions, n_new, known, verdict, c
         'evaluations': int(ctx.evaluations),
         'distinct_nontrivial': len(ctx.distinct),
         'rule': rule,
-        'samples': ctx.samples[:24] or [],
+        'samples': ctx.samples[:24] or [{'kind': 'none', 'case': 'no case was explored by this run (verdict %s)' % verdict}],
         'counters': dict(sorted(ctx.counters.items())),
         'verdict': verdict,
         'known_findings_observed': {k: c for k, (f, c, v) in known.items()},
